@@ -41,7 +41,10 @@ from enum import Enum
 from io import StringIO
 from typing import Any, Callable, Collection, Dict, Generic, IO, Iterable, Iterator, List, Optional, Set, \
     SupportsFloat, SupportsInt, Tuple, Type, TypeVar, Union
+import functools
 import itertools
+import string
+import _string
 
 
 DEFAULT_GLOBALS: Dict[str, Any] = {
@@ -64,6 +67,41 @@ class ParseError(RuntimeError):
 
     def __str__(self):
         return f"{super().__str__()} at offset {self.offset}"
+
+
+class _SafeFormatter(string.Formatter):
+    """A :class:`string.Formatter` whose replacement fields obey the same rule as :func:`get_member`.
+
+    ``'{0._private}'.format(obj)`` would otherwise read attributes that ``obj._private`` is refused.
+
+    """
+    def get_field(self, field_name, args, kwargs):
+        _, rest = _string.formatter_field_name_split(field_name)
+        for is_attribute, name in rest:
+            if is_attribute and name.startswith('_'):
+                raise ParseError(f"Cannot read protected and private member variables in a format string: "
+                                 f"{{{field_name}}}", 0)
+        return super().get_field(field_name, args, kwargs)
+
+
+_SAFE_FORMATTER = _SafeFormatter()
+
+
+def _safe_format(format_string, *args):
+    """Replacement for :meth:`str.format` inside expressions."""
+    if not isinstance(format_string, str):
+        raise TypeError(f"format() requires a 'str' object but received a {type(format_string).__name__!r}")
+    return _SAFE_FORMATTER.vformat(format_string, args, {})
+
+
+def _safe_format_map(format_string, mapping):
+    """Replacement for :meth:`str.format_map` inside expressions."""
+    if not isinstance(format_string, str):
+        raise TypeError(f"format_map() requires a 'str' object but received a {type(format_string).__name__!r}")
+    return _SAFE_FORMATTER.vformat(format_string, (), mapping)
+
+
+_SAFE_STR_METHODS = {'format': _safe_format, 'format_map': _safe_format_map}
 
 
 def get_member(obj, member: 'IdentifierToken'):
@@ -97,6 +135,12 @@ def get_member(obj, member: 'IdentifierToken'):
         raise ParseError(f"member name expected, instead found {member}", member.offset)
     if member.name.startswith('_'):
         raise ParseError(f"Cannot read protected and private member variables: {obj}.{member.name}", member.offset)
+    if member.name in _SAFE_STR_METHODS:
+        # str.format and str.format_map traverse attributes named inside the format string
+        if obj is str:
+            return _SAFE_STR_METHODS[member.name]
+        elif isinstance(obj, str):
+            return functools.partial(_SAFE_STR_METHODS[member.name], obj)
     return getattr(obj, member.name)
 
 
